@@ -234,40 +234,46 @@ def proof_obligations(pid):
     rc, out = sh("timeout 900 coqc -R . SCK Properties/%s.v" % pid, timeout=1000, cwd=COQ)
     return _pair_assumptions(open(path).read(), rc, out, res)
 
-TRANSLATORS = {"scoring": ("ScoringGen.v", "ScoringGenProof.v"), "copeland": ("CopelandGen.v", "CopelandGenProof.v")}
+# name -> (generated files in build order as (file, translate function suffix), committed proof file)
+TRANSLATORS = {"scoring": ([("ScoringGen.v", "scoring")], "ScoringGenProof.v"),
+               "copeland": ([("CopelandGen.v", "copeland")], "CopelandGenProof.v"),
+               "stv": ([("ScoringGen.v", "scoring"), ("StvGen.v", "stv")], "StvGenProof.v")}
 
 def translator_obligation(name):
     """regenerate the model of <name> from /repo's current source (harness/translate.py), compile it, and re-check the
     committed equivalence proofs coq/gen/<..>Proof.v against it. Same result shape as proof_obligations."""
     from . import translate
-    gen, proof = TRANSLATORS[name]
-    res = dict(ok=False, obligations=0, discharged=0, theorems=[], log="", file="coq/gen/%s (against %s regenerated from %s)" % (proof, gen, REPO))
+    gens, proof = TRANSLATORS[name]
+    res = dict(ok=False, obligations=0, discharged=0, theorems=[], log="", file="coq/gen/%s (against %s regenerated from %s)" % (proof, ", ".join(g for g, _ in gens), REPO))
     gdir = os.path.join(WORK, "gen_%s_%d" % (name, os.getpid()))
     shutil.rmtree(gdir, ignore_errors=True)
     os.makedirs(gdir)
     try:
         psrc = open(os.path.join(COQ, "gen", proof)).read()
         res["obligations"] = len(re.findall(r"^\s*(?:Theorem|Lemma|Corollary)\s+([A-Za-z0-9_']+)", strip_coq_comments(psrc), re.M))
-        try:
-            text = getattr(translate, "translate_" + name)(REPO)
-        except translate.TErr as e:
-            res["log"] = "translator rejected the source (fail-closed): %s" % e
-            return res
-        except Exception as e:
-            res["log"] = "translator failed: %s: %s" % (type(e).__name__, e)
-            return res
-        if FORBIDDEN.search(strip_coq_comments(text)):
-            res["log"] = "generated text contains a forbidden command"
-            return res
-        open(os.path.join(gdir, gen), "w").write(text)
+        h = hashlib.sha256()
+        for gen, fnname in gens:
+            try:
+                text = getattr(translate, "translate_" + fnname)(REPO)
+            except translate.TErr as e:
+                res["log"] = "translator rejected the source (fail-closed): %s" % e
+                return res
+            except Exception as e:
+                res["log"] = "translator failed: %s: %s" % (type(e).__name__, e)
+                return res
+            if FORBIDDEN.search(strip_coq_comments(text)):
+                res["log"] = "generated text contains a forbidden command"
+                return res
+            h.update(text.encode())
+            open(os.path.join(gdir, gen), "w").write(text)
+            rc, out = sh("timeout 300 coqc -R %s SCK -R . SCKGen %s" % (COQ, gen), timeout=320, cwd=gdir)
+            if rc != 0:
+                res["log"] = "generated model %s does not compile:\n" % gen + out[-2000:]
+                return res
         open(os.path.join(gdir, proof), "w").write(psrc)
-        rc, out = sh("timeout 300 coqc -R %s SCK -R . SCKGen %s" % (COQ, gen), timeout=320, cwd=gdir)
-        if rc != 0:
-            res["log"] = "generated model does not compile:\n" + out[-2000:]
-            return res
         rc, out = sh("timeout 600 coqc -R %s SCK -R . SCKGen %s" % (COQ, proof), timeout=620, cwd=gdir)
         res = _pair_assumptions(psrc, rc, out, res)
-        res["generated_sha256"] = hashlib.sha256(text.encode()).hexdigest()
+        res["generated_sha256"] = h.hexdigest()
         return res
     finally:
         shutil.rmtree(gdir, ignore_errors=True)
